@@ -172,6 +172,11 @@ def _call(args):
         return dict(machinery_error='%s: %s' % (type(e).__name__, e), tb=traceback.format_exc(), job=job)
 
 
+def _call_chunk(args):
+    modname, fname, chunk = args
+    return [_call((modname, fname, j)) for j in chunk]
+
+
 def pmap(modname, fname, jobs, workers=None, chunksize=8, quiet=True):
     """Run harness function modname.fname(job) for every job in worker processes that import
     rsome from VERIF_REPO.  Returns results in order."""
@@ -181,8 +186,27 @@ def pmap(modname, fname, jobs, workers=None, chunksize=8, quiet=True):
         return []
     workers = workers or min(16, os.cpu_count() or 4)
     ctx = mp.get_context('spawn')
-    with ctx.Pool(workers, initializer=_worker_init, initargs=(repo_path(), quiet)) as pool:
-        out = pool.map(_call, [(modname, fname, j) for j in jobs], chunksize=chunksize)
+    # A solver can hang inside C code (observed: ECOS branch-and-bound on infeasible integer programs, Gurobi on
+    # unbounded mixed-integer cone programs, HiGHS presolve): never wait forever - a chunk that does not come back
+    # within job_timeout seconds ends the run as a machinery failure (exit 2), and the workers are killed.
+    job_timeout = float(os.environ.get('VERIF_JOB_TIMEOUT', '900'))
+    chunks = [jobs[i:i + chunksize] for i in range(0, len(jobs), chunksize)]
+    pool = ctx.Pool(workers, initializer=_worker_init, initargs=(repo_path(), quiet))
+    try:
+        pending = [pool.apply_async(_call_chunk, ((modname, fname, ch),)) for ch in chunks]
+        out = []
+        for k, a in enumerate(pending):
+            try:
+                out.extend(a.get(timeout=job_timeout))
+            except mp.TimeoutError:
+                pool.terminate()
+                from harness.tlc import MachineryError
+                raise MachineryError('%s.%s: a replay chunk (jobs %d..%d) did not return within %.0f s (solver hang?)'
+                                     % (modname, fname, k * chunksize, k * chunksize + len(chunks[k]) - 1, job_timeout))
+        pool.close()
+    finally:
+        pool.terminate()
+        pool.join()
     return out
 
 
